@@ -255,30 +255,21 @@ def mdToVal (m : Bytes × Bytes) : Option Val :=
 def statusToVal (s : Int) : Option Val :=
   if s ≥ 0 ∧ Schema.statusEnum.contains s.toNat then some (.uint s.toNat) else none
 
-def brspToVal (r : BRsp) : Option Val :=
-  match statusToVal r.status with
-  | none => none
-  | some st =>
-    let md : Option (Option Val) :=
-      match r.md with
-      | none => some none
-      | some ms => match allSome (ms.map mdToVal) with
-        | some vs => some (some (.array vs))
-        | none => none
-    match md with
-    | none => none
-    | some mdv =>
-      some (.map ([(Schema.rsp_id, .bytes r.id), (Schema.rsp_status, st)]
-        ++ optEntry Schema.rsp_metadata mdv
-        ++ optEntry Schema.rsp_extensions (r.ext.map fun es => .map (extsToKVs es))))
-
-def bblkToVal (b : BBlk) : Val := .array [.bytes b.pfx, .bytes b.data]
-
 def optList {α : Type} (f : α → Option Val) : Option (List α) → Option (Option Val)
   | none => some none
   | some xs => match allSome (xs.map f) with
     | some vs => some (some (.array vs))
     | none => none
+
+def brspToVal (r : BRsp) : Option Val :=
+  match statusToVal r.status, optList mdToVal r.md with
+  | some st, some mdv =>
+    some (.map ([(Schema.rsp_id, .bytes r.id), (Schema.rsp_status, st)]
+      ++ optEntry Schema.rsp_metadata mdv
+      ++ optEntry Schema.rsp_extensions (r.ext.map fun es => .map (extsToKVs es))))
+  | _, _ => none
+
+def bblkToVal (b : BBlk) : Val := .array [.bytes b.pfx, .bytes b.data]
 
 /-- the representation node bindnode hands to the codec (fields in schema order; the codec sorts) -/
 def bmsgToVal (m : BMsg) : Option Val :=
@@ -368,9 +359,11 @@ def valToMd : Val → Option (Bytes × Bytes)
     | none => none
   | _ => none
 
-def valToMdList : Val → Option (List (Bytes × Bytes))
-  | .array xs => allSome (xs.map valToMd)
+def valToList {α : Type} (f : Val → Option α) : Val → Option (List α)
+  | .array xs => allSome (xs.map f)
   | _ => none
+
+def valToMdList : Val → Option (List (Bytes × Bytes)) := valToList valToMd
 
 def valToStatus : Val → Option Int
   | .uint n => if Schema.statusEnum.contains n then some (Int.ofNat n) else none
@@ -391,10 +384,6 @@ def valToBRsp : Val → Option BRsp
 
 def valToBBlk : Val → Option BBlk
   | .array [.bytes p, .bytes d] => some ⟨p, d⟩
-  | _ => none
-
-def valToList {α : Type} (f : Val → Option α) : Val → Option (List α)
-  | .array xs => allSome (xs.map f)
   | _ => none
 
 def valToBMsg : Val → Option BMsg
@@ -623,49 +612,47 @@ def distinctBy {α : Type} (key : α → Bytes) : List α → Bool
   | [] => true
   | x :: xs => !(xs.any fun y => key y == key x) && distinctBy key xs
 
-/-- a value sitting under `d` enclosing maps/lists -/
-def wfAny (d : Nat) (v : Val) : Bool := wfVal v && decide (d + depthVal v ≤ maxDepth)
-
-def wfExts (d : Nat) (es : List Ext) : Bool :=
-  distinctBy (·.1) es &&
-  es.all fun e => decide (e.1.length ≤ maxStrLen) && match e.2 with | none => true | some v => wfAny d v
-
 def int32 (z : Int) : Bool := decide (-2147483648 ≤ z) && decide (z ≤ 2147483647)
 
-def wfReq (r : Request) : Bool :=
-  decide (r.id.length = 16) && int32 r.priority &&
-  (match r.root with | none => true | some c => validCid c) &&
-  (match r.selector with | none => true | some .null => false | some v => wfAny 4 v) &&
-  wfExts 5 r.exts
+def selNotNull : Option Val → Bool
+  | some .null => false
+  | _ => true
 
-def wfRsp (r : Response) : Bool :=
-  decide (r.id.length = 16) &&
-  decide (0 ≤ r.status) && Schema.statusEnum.contains r.status.toNat &&
-  (r.metadata.all fun m => validCid m.1 && goLinkActions.contains m.2) &&
-  wfExts 5 r.exts
+def wfReq (r : Request) : Bool :=
+  decide (r.id.length = 16) && int32 r.priority && selNotNull r.selector
+
+def wfRsp (r : Response) : Bool := decide (r.id.length = 16)
 
 def wfBlk (hash : Hash) (b : Block) : Bool :=
   match prefixOfCid b.cid with
   | some p => sumCid hash p b.data == some b.cid
   | none => false
 
-/-- constructible with the public constructors from valid parts, and small enough to be framed:
-    * request ids 16 bytes and pairwise distinct (they are keys of a Go map); same for responses
-    * extension names distinct per request/response; values encodable DAG-CBOR data
-      (no NaN/Inf, valid CIDs, unique map keys), nested at most 1024 deep on the wire
+/-- the value handed to the codec, if the message can be encoded at all (`none`: an undefined status
+    code, a link action that is not one of the four constants, a block whose CID does not parse) -/
+def msgVal (m : Msg) : Option Val :=
+  match toIPLD m with
+  | none => none
+  | some b => bmsgToVal b
+
+/-- "Well-formed": constructible with the public constructors from valid parts and small enough to
+    be framed.
+    * request ids are 16 bytes and pairwise distinct (they are keys of a Go map); same for responses;
+      priorities are int32
     * the selector is not the null node (the schema says `optional Any`, not nullable)
-    * status codes are defined ones, link actions are the four Go constants
-    * each block's CID is the one its prefix and data hash to
+    * status codes are defined ones and link actions are the four Go constants (`msgVal m` exists)
+    * each block's CID is the one its prefix and data hash to; block CIDs are distinct
+    * all IPLD data inside (selector, extension data, roots, metadata links) is valid DAG-CBOR data
+      within the decoder's limits (`wfVal`: finite floats, valid CIDs, no duplicate map keys -- this
+      includes distinct extension names --, strings <= 32 MiB, nesting <= 1024)
     * the encoding fits the 4 MiB frame limit and the decoder's allocation budget -/
 def wf (hash : Hash) (m : Msg) : Bool :=
   distinctBy (·.id) m.requests && m.requests.all wfReq &&
   distinctBy (·.id) m.responses && m.responses.all wfRsp &&
   distinctBy (·.cid) m.blocks && m.blocks.all (wfBlk hash) &&
-  match toIPLD m with
+  match msgVal m with
   | none => false
-  | some b => match bmsgToVal b with
-    | none => false
-    | some v => decide ((encodeVal v).length ≤ maxMsgSize) && decide (0 < (encodeVal v).length) &&
-                decide (cost v ≤ defaultBudget)
+  | some v => wfVal v && decide (depthVal v ≤ maxDepth) && decide ((encodeVal v).length ≤ maxMsgSize) &&
+              decide (cost v ≤ defaultBudget)
 
 end GS.Wire
